@@ -26,12 +26,21 @@ from . import c18_hist as H
 
 PROP = "C18"
 
-SETTINGS = {                     # name -> (ciq_samples, max_cholesky_size, fast_computations.covar_root_decomposition)
+SETTINGS = {                     # name -> (ciq_samples, max_cholesky_size, fast_computations.covar_root_decomposition
+                                 #          [, min_preconditioning_size, max_preconditioner_size])
     "default": (False, 800, True),
     "lanczos": (False, 2, True),      # sizes > 2 take the Lanczos root
     "fastoff": (False, 2, False),     # sizes > 2, but fast root decomposition off -> Cholesky
     "ciq": (True, 800, True),
 }
+# family (c): CIQ sampling of operators WITH an active preconditioner (AddedDiagLinearOperator's pivoted-Cholesky
+# preconditioner is switched on by lowering min_preconditioning_size below the size): rank 2, 5 and full
+PRECOND_SETTINGS = {
+    "ciq_pc2": (True, 800, True, 1, 2),
+    "ciq_pc5": (True, 800, True, 1, 5),
+    "ciq_pc15": (True, 800, True, 1, 15),
+}
+ALL_SETTINGS = dict(SETTINGS, **PRECOND_SETTINGS)
 
 
 def settings_ctx(st):
@@ -40,6 +49,9 @@ def settings_ctx(st):
     es.enter_context(settings.ciq_samples(bool(st[0])))
     es.enter_context(settings.max_cholesky_size(int(st[1])))
     es.enter_context(settings.fast_computations(covar_root_decomposition=bool(st[2])))
+    if len(st) > 3:
+        es.enter_context(settings.min_preconditioning_size(int(st[3])))
+        es.enter_context(settings.max_preconditioner_size(int(st[4])))
     return es
 
 
@@ -183,6 +195,11 @@ def gen_struct(rng, cls, batch, n, rot, var=False):
 
 
 def gen_expr(rng, cls, batch, n, rot):
+    if cls.endswith("@pc"):                    # family (c): operators that supply a preconditioner (c18_hist.gen_pc)
+        c = cls[:-3]
+        if c in ("AddedDiag", "AddedDiagSpec"):
+            return gen_leaf(rng, c, batch, n)
+        return H.gen_pc(rng, c, batch, n, rot, gen_interp)
     if cls in STRUCT_GRID or cls in STRUCT_VAR:
         return gen_struct(rng, cls, batch, n, rot)
     return gen_leaf(rng, cls, batch, n)
@@ -229,6 +246,45 @@ def var_cells(quick):
                         b = [2, 6, 7, 8, 3, 4][cq % 6]
                     cq += 1
                 cells.append((cls, sn, b, k, n))
+    return cells
+
+
+PC_HIST = [["solve"], ["inv_quad_logdet"], ["logdet"], ["sample"], ["sqrt_inv_matmul"], ["ri_iv1"]]
+
+
+def pc_cells(quick):
+    """family (c): CIQ sampling with an ACTIVE preconditioner (min_preconditioning_size below the size)"""
+    classes = [c + "@pc" for c in H.PC_LEAVES + H.PC_STRUCT]
+    sizes = [3, 5, 8]
+    cells, idx = [], 0
+    for ci, cls in enumerate(classes):
+        struct = cls[:-3] in H.PC_STRUCT
+        for si, sn in enumerate(PRECOND_SETTINGS):
+            for j in range(2 if quick else 9):
+                b = (idx * 4 + ci + j) % len(BATCHES) if not quick else [0, 2, 5, 6, 7, 3, 8, 4, 1][(idx + ci) % 9]
+                n = sizes[(idx + si) % 3]
+                k = 1 + idx % 3
+                idx += 1
+                B = M.prod(BATCHES[b]) * (3 if struct else 1)
+                if struct:
+                    n = min(n, 5)
+                while B * n * k > 96 and k > 1:
+                    k -= 1
+                if B * n * k > 96:
+                    n = 3
+                cells.append((cls, sn, b, k, n))
+    for hi, steps in enumerate(PC_HIST):
+        for bc in range(3):
+            for si, sn in enumerate(PRECOND_SETTINGS):
+                if quick and (hi + bc) % 3 != si:
+                    continue
+                bl = HIST_BATCH[bc]
+                b = bl[(hi + si) % len(bl)]
+                if M.prod(BATCHES[b]) > 4:
+                    b = 7
+                cls = H.PC_ROT[(hi + bc + si) % 3] + "@pc"
+                cells.append((cls, sn, b, 1 + (hi + bc) % 3, [5, 3, 8][(hi + si) % 3] if M.prod(BATCHES[b]) <= 2 else 3,
+                              hist_tag(steps, "top")))
     return cells
 
 
@@ -305,6 +361,7 @@ def grid(ctx):
                     cells.append((cls, sn, b, 2, 3))
     cells += var_cells(ctx.quick)
     cells += hist_cells(ctx.quick)
+    cells += pc_cells(ctx.quick)
     seen = set()
     out = []
     for c in cells:
@@ -322,7 +379,7 @@ def make_case(seed, cell, idx):
         e = gen_expr(rng, cls, BATCHES[b], n, rot)
     except Exception as ex:                       # generator limitation, not a finding
         return {"cell": cell, "gen_error": repr(ex)[:200]}
-    case = {"cell": list(cell), "expr": e, "st_name": sn, "st": list(SETTINGS[sn]), "k": k,
+    case = {"cell": list(cell), "expr": e, "st_name": sn, "st": list(ALL_SETTINGS[sn]), "k": k,
             "nseed": rng.randrange(1 << 30)}
     if len(cell) > 5:
         case["history"] = parse_tag(cell[5])
@@ -371,9 +428,10 @@ def transcribed_dense(e):
     return opbuild.dense(transform(e, f))
 
 
-def spectrum_ok(e):
-    """every generic leaf matrix has a simple spectrum and kappa <= 100 (the regime in which the Lanczos / CIQ
-    roots are accurate; elsewhere their accuracy is property C06 / C11)"""
+def spectrum_ok(e, simple=True):
+    """every generic leaf matrix has kappa <= 100 and (simple=True) a simple spectrum: the regime in which the Lanczos
+    roots (single start vector: needs distinct eigenvalues) resp. the contour quadrature (simple=False: only the
+    condition number matters) are accurate; elsewhere their accuracy is property C06 / C11"""
     ok = [True]
 
     def visit(x):
@@ -392,7 +450,7 @@ def spectrum_ok(e):
             if bool((lo <= 0).any()) or bool((hi / lo.clamp_min(1e-300) > 100).any()):
                 ok[0] = False
                 return
-            if ev.shape[-1] > 1:
+            if simple and ev.shape[-1] > 1:
                 gaps = (ev[..., 1:] - ev[..., :-1]) / hi[..., None]
                 if bool((gaps < 1e-2).any()):
                     ok[0] = False
@@ -465,7 +523,7 @@ def eval_case(case):
                 if res["out_shape"] != exp_shape:
                     res["fails"].append({"fail": "shape", "observed": res["out_shape"], "expected": exp_shape})
                     return res
-                degenerate = (st[0] or (st[1] < 800 and st[2]) or H.history_approx(steps, hist_n, st[1])) and not spectrum_ok(e)
+                degenerate = (st[0] or (st[1] < 800 and st[2]) or H.history_approx(steps, hist_n, st[1])) and not spectrum_ok(e, simple=not st[0])
                 if degenerate and not bool(torch.isfinite(out0).all()):
                     # NaN root from a Lanczos breakdown on a degenerate spectrum: properties C06 / C09
                     res["notes"].append("root accuracy not assessed (approximate root is not finite on a degenerate spectrum)")
@@ -497,7 +555,7 @@ def eval_case(case):
         where = next((f for f in reversed(tb) if "linear_operator" in f.filename), tb[-1])
         approx_setting = st[0] or (st[1] < 800 and st[2]) or H.history_approx(steps, hist_n, st[1])
         if approx_setting and os.path.basename(where.filename) in ("lanczos.py", "_root_decomposition.py", "contour_integral_quad.py",
-                                                                    "minres.py", "linear_cg.py") and not spectrum_ok(e):
+                                                                    "minres.py", "linear_cg.py") and not spectrum_ok(e, simple=not st[0]):
             # the approximate root itself broke down on a degenerate / ill-conditioned spectrum: properties C06 / C09 / C11
             res["notes"].append("root accuracy not assessed (approximate root failed on a degenerate spectrum: %s)" % type(ex).__name__)
             res["root_failed"] = True
@@ -528,7 +586,7 @@ def eval_case(case):
         zflat = torch.tensor([x for z in zs for x in z], dtype=torch.float64)
         lin = float((Jf @ zflat - out1.reshape(k, B, n).to(torch.float64)).abs().max())
         lin_tol = (1e-5 if st[0] else 1e-9) * max(1.0, float(out1.abs().max()))
-        if st[0] and not spectrum_ok(e):
+        if st[0] and not spectrum_ok(e, simple=not st[0]):
             lin_tol = None        # CIQ outside its accurate regime: the quadrature (chosen from the noise) is visibly noise dependent
         if lin_tol is not None and not lin <= lin_tol:
             res["fails"].append({"fail": "not-linear", "what": "draws(z) != J z", "err": lin})
@@ -541,7 +599,7 @@ def eval_case(case):
                 cross = max(cross, member_err(Jf[t] @ Jf[t2].transpose(-1, -2) + Af, Af)[0])
         res["cov_err"], res["cross"] = cov_err, cross
         if inexact:
-            if spectrum_ok(e):
+            if spectrum_ok(e, simple=not st[0]):
                 # Lanczos roots carry a ~1e-6 relative jitter; the contour quadrature (no Lanczos root involved: every
                 # generic sampler runs CIQ, sizes <= 20 so its eigenvalue estimates and MINRES are exact) is accurate to
                 # ~1e-14 on these spectra (kappa <= 100)
@@ -927,13 +985,16 @@ def run(ctx):
         "rule": "cells = class (leaf PSD constructors, structured samplers and two-level nestings; the same over children whose "
                 "batch members have different spectra and scales) x settings {default, lanczos (max_cholesky_size=2), fastoff "
                 "(max_cholesky_size=2, covar_root_decomposition off), ciq} x batch kind (9, up to 3 batch dims) x k {1,2,3} x size "
-                "{1,2,3,5} [x history of prior calls on the object / its generic leaves x derivation]; non-trivial = the sampler "
+                "{1,2,3,5} [x history of prior calls on the object / its generic leaves x derivation]; plus CIQ sampling with an "
+                "ACTIVE preconditioner (AddedDiag with constant / non-constant diagonal and low-rank base, alone and under Block* / "
+                "SumBatch / PsdSum / Sum / Interpolated; min_preconditioning_size 1, max_preconditioner_size 2, 5, 15; sizes 3, 5, 8); non-trivial = the sampler "
                 "returned draws, the complete noise->draws matrix was reconstructed and the dense covariance is not a multiple "
                 "of one repeated diagonal member; distinct by (class tree, setting, output shape, k, randn call shapes, history)",
         "history_cases": sum(1 for c in cases if c.get("history")),
         "history_kinds": len(H.HISTORIES), "derivations": len(H.DERIVATIONS),
         "history_steps_that_raised": sum(len(r.get("hist_raised") or []) for r in results),
         "different_member_cases": sum(1 for c in cases if "Var" in str(c["cell"][0]) or "@var" in str(c["cell"][0])),
+        "preconditioned_ciq_cases": sum(1 for c in cases if str(c.get("st_name", "")).startswith("ciq_pc")),
         "batch_shapes": [list(b) for b in BATCHES],
         "cells": len(cells), "generator_errors": len(gen_err), "phase_seconds": phase,
         "skipped_constructor": sum(1 for r in results if r.get("skip")),
